@@ -7,6 +7,7 @@ import DimodProofs.LpDec
 import DimodProofs.LpClosed
 import DimodProofs.LpReader
 import DimodProofs.LpCppLex
+import DimodProofs.LpCppText
 import DimodProofs.LpFamily0
 import DimodProofs.LpFamily1
 import DimodProofs.LpFamily2
@@ -450,5 +451,50 @@ example :
       .ok [.str "To", .colon, .plus, .cons (.fin 12), .str "x_1", .minus, .cons (.fin 9007199254740991), .str "I.a",
            .greater, .equal, .minus, .cons (.fin 3)] := by
   decide +kernel
+
+/-! ### the whole lexical layer: from the model to the raw tokens of the C++ reader -/
+
+open LpCpp in
+/-- **every write of `dump` is read by the C++ tokenizer as that write's raw tokens, in any context**: the text of a
+    write (without its final newline) is a newline-free piece that `readnexttoken` turns into `rawOf t` whatever text
+    follows (for `" name"` and `End`: provided a blank / newline / the end of the file follows, which the next write of
+    `dump` supplies) — for all labels `_validate_label` accepts and all numbers that are terminating decimals and binary64
+    values, `1e+30` included. -/
+theorem cpp_lexer_reads_every_write (t : Tok) (h : TokCppOK t) : ∀ a ∈ tokAtoms t, a.ok := tokAtoms_ok t h
+
+open LpCpp in
+/-- … and the pieces are the write: their text is the text written, their tokens are `rawOf t` -/
+theorem cpp_lexer_write_pieces (t : Tok) :
+    atomsText (tokAtoms t) = t.render.toList ∧ (tokAtoms t).flatMap Atom.raw = rawOf t :=
+  ⟨tokAtoms_text t, tokAtoms_raw t⟩
+
+open LpCpp in
+/-- **the C++ reader's tokenizer on the text of `lp.dumps`, for every model** (the first of the four stages of
+    `LpCpp.loads`; `_partial` with respect to the general theorem `LpCpp.loads (Lp.dumps m) = normCqm m`, whose later
+    stages `processtokens` / `splittokens` / section parsers / `model_to_cqm` are proved only per label
+    (`cpp_processtokens_keeps_valid_label`, `valid_labels_form_no_reader_keyword`) and evaluated on the family):
+    for every model the writer accepts — any number of variables, terms and constraints, labels of any accepted form
+    (`To` included), every line break `_WidthLimitedFile` inserts — whose numbers are terminating decimals (≤ 60 places)
+    and binary64 values and whose expressions mention only its own variables, `Reader::readnexttoken` over the
+    `std::getline` lines of the written text (comments, `\r` stripping, `strtod` before the identifier rule) yields
+    exactly the raw tokens of the writes, in order: no label is split or taken for a number, no number is split, rounded
+    or glued to its neighbour, no line break changes a token. -/
+theorem cpp_reader_tokenizes_every_dump_partial (m : LCqm) (ts : List Tok) (text : String) (h : dumpToks m = .ok ts)
+    (ht : dumps m = .ok text) (hn : CppNumsOK m) (hl : ScopedOK m) :
+    rawTokens text = .ok (ts.flatMap rawOf) :=
+  rawTokens_dumps m ts text h ht hn hl
+
+open LpCpp in
+/-- **`processtokens` keeps every valid label a name, whatever follows**: a label `_validate_label` accepts is never
+    turned into a section keyword — alone, joined with the next word (`subject to`) or with `-` and the word after it
+    (`semi-continuous`) — nor into `free` or an infinity; it becomes a constraint identifier exactly when one colon
+    follows and a variable identifier otherwise (two colons: the SOS syntax, outside the writer's grammar). -/
+theorem cpp_processtokens_keeps_valid_label (s : String) (hs : validLabel (.str s) = true) (rest : List Raw) (fuel : Nat)
+    (hcc : ∀ r, rest ≠ .colon :: .colon :: r) :
+    procToks (fuel + 1) (.str s :: rest) =
+      match rest with
+      | .colon :: r => (procToks fuel r).map (PTok.conid s :: ·)
+      | _ => (procToks fuel rest).map (PTok.varid s :: ·) :=
+  procToks_label s hs rest fuel hcc
 
 end C12
